@@ -631,3 +631,88 @@ def r7_optional_numbers_tested_for_none(ctx, functions: Tuple[Tuple[str, str, Tu
                           "'no limit', so the search is never interrupted there")
         if not bad:
             ctx.ok("R7", f"{m.qualname}: optional limits {sorted(opt)} are compared with None, never tested by truth value")
+
+
+# ------------------------------------------------------------------------ R8 one-shot iterables are not kept
+ONE_SHOT_CALLS = {"map", "filter", "zip", "iter", "reversed", "enumerate", "chain", "islice", "product"}
+
+
+def _is_one_shot(f: ast.AST, e: ast.AST) -> bool:
+    v = D.expanded(f, e)
+    if isinstance(v, ast.GeneratorExp):
+        return True
+    if isinstance(v, ast.Call):
+        name = norm(v.func).split(".")[-1]
+        return name in ONE_SHOT_CALLS or name == "from_iterable"
+    return False
+
+
+def r8_one_shot_iterables_not_kept(ctx) -> None:
+    """An object kept in an attribute is read again later (the pack is replayed for every
+    recomputed rule, the rule cache at every extraction) and is part of what pickle saves.  A
+    generator can be walked once and cannot be pickled: (a) a parameter declared Iterable /
+    Iterator is materialised (tuple / list / set / dict / sorted) before it is kept; (b) no call
+    site hands a one-shot iterator to a parameter that the callee keeps as it is."""
+    P = ctx.P
+    keeps: Dict[str, List[Tuple[FuncInfo, int, str, str]]] = {}      # method name -> [(function, positional index, attr)]
+    n = 0
+    for fi in P.all_functions():
+        if fi.cls is None:
+            continue
+        a = fi.node.args
+        pos_params = [x.arg for x in a.posonlyargs + a.args]
+        params = pos_params + [x.arg for x in a.kwonlyargs]
+        anns = {x.arg: x.annotation for x in a.posonlyargs + a.args + a.kwonlyargs}
+        for st in walk_local(fi.node):
+            tv = None
+            if isinstance(st, ast.Assign) and len(st.targets) == 1:
+                tv = (st.targets[0], st.value)
+            elif isinstance(st, ast.AnnAssign) and st.value is not None:
+                tv = (st.target, st.value)
+            if tv is None or not is_self_attr(tv[0]) or not isinstance(tv[1], ast.Name) or tv[1].id not in params or tv[1].id == "self":
+                continue
+            p = tv[1].id
+            # the parameter must reach the store unchanged
+            stores = [x for x in walk_local(fi.node) if isinstance(x, ast.Name) and x.id == p and isinstance(x.ctx, ast.Store)]
+            if stores:
+                continue
+            n += 1
+            keeps.setdefault(fi.name, []).append((fi, (pos_params.index(p) - (0 if fi.is_static() else 1)) if p in pos_params else -1, tv[0].attr, p))
+            ann = anns.get(p)
+            head = norm(ann).split("[")[0].split(".")[-1] if ann is not None else ""
+            if head in ("Iterable", "Iterator", "Generator"):
+                ctx.violation("R8", st, f"{fi.qualname} keeps its parameter `{p}` (declared {norm(ann)[:40]}) as it is in self.{tv[0].attr}: a caller may pass a generator, which can "
+                              "be walked only once and cannot be pickled; it must be materialised (tuple(...)) when it is stored")
+    n_sites = 0
+    for fi in P.all_functions():
+        for c in walk_local(fi.node):
+            if not isinstance(c, ast.Call):
+                continue
+            name = None
+            if isinstance(c.func, ast.Attribute):
+                name = c.func.attr
+            elif isinstance(c.func, ast.Name) and c.func.id in P.classes:
+                name = "__init__"
+                if "__init__" not in P.classes[c.func.id].methods:
+                    continue
+            if name not in keeps:
+                continue
+            for callee, pos, attr, pname in keeps[name]:
+                if name == "__init__" and isinstance(c.func, ast.Name) and callee.cls is not None and callee.cls.name != c.func.id:
+                    continue
+                cand = None
+                if 0 <= pos < len(c.args) and not any(isinstance(x, ast.Starred) for x in c.args[:pos + 1]):
+                    cand = c.args[pos]
+                for k in c.keywords:
+                    if k.arg == pname:
+                        cand = k.value
+                if cand is None:
+                    continue
+                n_sites += 1
+                if _is_one_shot(fi.node, cand):
+                    ctx.violation("R8", cand, f"{fi.qualname} hands the one-shot iterator `{norm(D.expanded(fi.node, cand))[:70]}` to {callee.qualname}, which keeps it in self.{attr} "
+                                  "and reads it again later: after the first walk it is empty (and it cannot be pickled)")
+    if n < 20 or n_sites < 20:
+        ctx.floor("R8", 99)
+    else:
+        ctx.ok("R8", f"{n} parameters kept as they are, {n_sites} call sites: none is declared or passed as a one-shot iterable")
